@@ -23,8 +23,15 @@ def run(ctx, drv):
         budgets = [rng.choice(pool) for _ in range(rng.choice([1, 1, 2, 3]))]
         if k % 9 == 0:
             budgets = [0] + budgets
-        tr, alg, err = runs.execute(cfg, budgets, collect_steps=False)
-        inp = runs.describe(cfg, budgets=budgets)
+        budget_as = rng.choice(["int", "int", "object", "reused-object"])
+        if budget_as == "reused-object" and len(budgets) >= 2 and rng.random() < 0.7:
+            budgets[1] = budgets[0]               # the same condition object on consecutive calls
+        # a run seeded with solutions evaluated earlier, enough of them to fill the initial population
+        seeded = k % 11 == 5
+        if seeded:
+            cfg = dict(cfg, injected=cfg["size"] + rng.choice([0, 0, 2]))
+        tr, alg, err = runs.execute(cfg, budgets, collect_steps=False, budget_as=budget_as, injected_evaluated=seeded)
+        inp = runs.describe(cfg, budgets=budgets, budget_given_as=budget_as, injected_solutions_already_evaluated=seeded)
         if err is not None:
             if err.startswith("RunTimeout"):
                 ctx.fail("run-does-not-terminate", inp, err[:200], "run(N) returns", f"core.Algorithm.run ({cfg['name']})")
